@@ -479,9 +479,10 @@ fn c18_set_stream() {
 fn payload_values_case<const N: usize>() {
     let cfg = cfg1();
     let buf: [u8; B] = kani::any();
-    let g = any_geo(B);
+    // concrete geometry (1 parsed byte, a 1-byte gap, N raw bytes): the index arithmetic for arbitrary geometries is
+    // covered by the Stream/Skip instances of the same function; here the subject is the GetValues body handling
+    let g = (0usize, 1usize, 2usize, 2 + N);
     let rlen = g.3 - g.2;
-    kani::assume(rlen == N);
     let role = any_role();
     let v0: u8 = kani::any();
     kani::assume(v0 < 8);
@@ -529,8 +530,8 @@ fn payload_values_case<const N: usize>() {
     std::mem::forget(p);
 }
 
-// @harness name=c02_payload_values_3 props=C02,C04,C03 tier=quick timeout=1500 rmbody=ioerr,nogrow mem=20 dead=1
-// @bound State::Values with any accumulated set; 24-byte buffer, every geometry with exactly 3 raw bytes (symbolic), payload_rem 1..65535 (shorter bodies via payload_rem); parse_name / write_response replaced by the E5 models; E8
+// @harness name=c02_payload_values_3 props=C02,C04,C03 tier=thorough timeout=7000 rmbody=ioerr,nogrow mem=40 dead=1
+// @bound State::Values with any accumulated set; 24-byte buffer, fixed geometry with exactly 3 raw bytes (symbolic contents), payload_rem 1..65535 (shorter bodies via payload_rem); parse_name / write_response replaced by the E5 models; E8
 // @functions stream::Parser::parse_payload, NVIter<&[u8]>::next, parser::parse_nv_var
 #[kani::proof]
 #[kani::unwind(7)]
@@ -539,8 +540,18 @@ fn payload_values_case<const N: usize>() {
 #[kani::stub(fcgi::ProtocolVariables::write_response, crate::verif_kani::write_response_model)]
 fn c02_payload_values_3() { payload_values_case::<3>(); }
 
-// @harness name=c02_payload_values_4 props=C02,C04,C03 tier=quick timeout=1500 rmbody=ioerr,nogrow mem=20 dead=1
-// @bound State::Values with any accumulated set; 24-byte buffer, every geometry with exactly 4 raw bytes (symbolic), payload_rem 1..65535 (shorter bodies via payload_rem); parse_name / write_response replaced by the E5 models; E8
+// @harness name=c02_payload_values_2 props=C02,C04,C03 tier=quick timeout=1500 rmbody=ioerr,nogrow mem=20 dead=2
+// @bound State::Values with any accumulated set; 24-byte buffer, fixed geometry with exactly 2 raw bytes (symbolic contents: at most the empty pair), payload_rem 1..65535; parse_name / write_response replaced by the E5 models; E8
+// @functions stream::Parser::parse_payload, NVIter<&[u8]>::next, parser::parse_nv_var
+#[kani::proof]
+#[kani::unwind(7)]
+#[kani::stub(std::hash::RandomState::new, fixed_random_state)]
+#[kani::stub(fcgi::ProtocolVariables::parse_name, crate::verif_kani::parse_name_model)]
+#[kani::stub(fcgi::ProtocolVariables::write_response, crate::verif_kani::write_response_model)]
+fn c02_payload_values_2() { payload_values_case::<2>(); }
+
+// @harness name=c02_payload_values_4 props=C02,C04,C03 tier=thorough timeout=7000 rmbody=ioerr,nogrow mem=40 dead=1
+// @bound State::Values with any accumulated set; 24-byte buffer, fixed geometry with exactly 4 raw bytes (symbolic contents), payload_rem 1..65535 (shorter bodies via payload_rem); parse_name / write_response replaced by the E5 models; E8
 // @functions stream::Parser::parse_payload, NVIter<&[u8]>::next, parser::parse_nv_var
 #[kani::proof]
 #[kani::unwind(7)]
@@ -550,7 +561,7 @@ fn c02_payload_values_3() { payload_values_case::<3>(); }
 fn c02_payload_values_4() { payload_values_case::<4>(); }
 
 // @harness name=c02_payload_values_6 props=C02,C04,C03 tier=thorough timeout=7000 rmbody=ioerr,nogrow mem=20 dead=1
-// @bound State::Values with any accumulated set; 24-byte buffer, every geometry with exactly 6 raw bytes (symbolic), payload_rem 1..65535 (shorter bodies via payload_rem); parse_name / write_response replaced by the E5 models; E8
+// @bound State::Values with any accumulated set; 24-byte buffer, fixed geometry with exactly 6 raw bytes (symbolic contents), payload_rem 1..65535 (shorter bodies via payload_rem); parse_name / write_response replaced by the E5 models; E8
 // @functions stream::Parser::parse_payload, NVIter<&[u8]>::next, parser::parse_nv_var
 #[kani::proof]
 #[kani::unwind(7)]
@@ -624,7 +635,7 @@ fn c02_parse_glue_skip() {
     std::mem::forget(p);
 }
 
-// @harness name=c03_stream_initial props=C03,C02,C09 tier=quick timeout=600 rmbody=ioerr,nogrow
+// @harness name=c03_stream_initial props=C03,C02,C09 tier=quick timeout=600 rmbody=ioerr,nogrow,nonv unwindset=stream::Parser::<'_>::parse$:2
 // @bound parse(0, dest) on an empty raw region for every role / active stream / geometry: returns immediately, stream_end iff the active stream is None, nothing changes
 // @functions stream::Parser::parse, stream::Parser::is_record_boundary
 #[kani::proof]
@@ -716,7 +727,7 @@ fn trace(id: u16, pl: [u8; 3]) -> [u8; 32] {
      1, 5, h, l, 0, 0, 0, 0]
 }
 
-// @harness name=c02_parse_trace_cut props=C02,C03,C04,C09 tier=quick timeout=1800 rmbody=ioerr,nogrow mem=20
+// @harness name=c02_parse_trace_cut props=C02,C03,C04,C09 tier=quick timeout=1800 rmbody=ioerr,nogrow,nonv mem=20 unwindset=stream::Parser::<'_>::parse$:5
 // @bound 32-byte buffer holding the concrete-shaped trace [Stdin(3 symbolic bytes, padding 5) | unknown type 12 (empty) | Stdin terminator] for a symbolic request id; the bytes arrive in two parse() calls cut at EVERY offset 0..32; dest = None; compared with the everything-at-once outcome
 // @functions stream::Parser::parse (loop glue: payload, padding, header, hold-back), parse_payload, parse_head
 #[kani::proof]
